@@ -146,7 +146,7 @@ def dormant_component(spec):
 
 
 def vtimezone(spec, tzid, form, daylight_first, nyears, fold_width=None,
-              drop=None, extra=None, dormant=None):
+              drop=None, extra=None, dormant=None, decor=False):
     """Lines of one VTIMEZONE. form: 'rrule' | 'rdate'.
     drop: name of a mandatory line to leave out (malformed variants)."""
     def comp(kind):
@@ -157,10 +157,16 @@ def vtimezone(spec, tzid, form, daylight_first, nyears, fold_width=None,
             rule, frm, to, name = spec["end"], spec["dstoff"], \
                 spec["stdoff"], spec["std"]
         lines = ["BEGIN:" + kind]
+        if decor:
+            lines.append("COMMENT:observance generated by the harness")
         if drop != "DTSTART":
-            lines.append("DTSTART:" + fmt_dt(onset_local(rule, Y0)))
+            lines.append(("DTSTART;VALUE=DATE-TIME:" if decor else
+                          "DTSTART;TZID=Nowhere:" if extra == "dtstart_param"
+                          else "DTSTART:") + fmt_dt(onset_local(rule, Y0)))
         if drop != "TZOFFSETFROM":
-            lines.append("TZOFFSETFROM:" + fmt_offset(frm))
+            lines.append(("tzoffsetfrom:" if decor else
+                          "TZOFFSETFROM;X-P=1:" if extra == "offset_param"
+                          else "TZOFFSETFROM:") + fmt_offset(frm))
         if drop != "TZOFFSETTO":
             lines.append("TZOFFSETTO:" + fmt_offset(to))
         lines.append("TZNAME:" + name)
@@ -169,6 +175,12 @@ def vtimezone(spec, tzid, form, daylight_first, nyears, fold_width=None,
         elif form == "rrule_count":
             # a finite recurrence: its cached set completes
             lines.append("RRULE:%s;COUNT=%d" % (rrule_text(rule), nyears))
+        elif form == "rrule_until":
+            # finite through UNTIL: the day after the last of nyears onsets
+            last = onset_local(rule, Y0 + nyears - 1) + \
+                datetime.timedelta(days=1)
+            lines.append("RRULE:%s;UNTIL=%s" % (
+                rrule_text(rule), last.strftime("%Y%m%dT235959")))
         else:
             dates = [fmt_dt(onset_local(rule, y))
                      for y in range(Y0 + 1, Y0 + nyears)]
@@ -176,11 +188,19 @@ def vtimezone(spec, tzid, form, daylight_first, nyears, fold_width=None,
                 lines.append("RDATE:" + ",".join(dates))
         if extra == "unknown_property" and kind == "STANDARD":
             lines.append("X-WHATEVER:1")
-        lines.append("END:" + kind)
+        lines.append("END:" + ("DAYLIGHT" if kind == "STANDARD" else
+                               "STANDARD")
+                     if extra == "wrong_component_end" and kind == "STANDARD"
+                     else "END:" + kind)
         return lines
     lines = ["BEGIN:VTIMEZONE"]
     if drop != "TZID":
         lines.append("TZID:" + tzid)
+    if decor:
+        # properties RFC 5545 allows inside VTIMEZONE and the reader skips
+        lines += ["TZURL:http://tz.invalid/" + tzid,
+                  "LAST-MODIFIED:20200101T000000Z",
+                  "COMMENT:nothing to see"]
     order = ["DAYLIGHT", "STANDARD"] if daylight_first else \
         ["STANDARD", "DAYLIGHT"]
     if dormant == "before":
@@ -208,8 +228,9 @@ def vtimezone(spec, tzid, form, daylight_first, nyears, fold_width=None,
 
 def gen_zone_spec(rng, form=None):
     spec = PX.gen_spec(rng)
-    form = form or rng.choice(["rrule", "rrule", "rdate", "rrule_count"])
-    if form in ("rrule", "rrule_count"):
+    form = form or rng.choice(["rrule", "rrule", "rdate", "rrule_count",
+                               "rrule_until"])
+    if form in ("rrule", "rrule_count", "rrule_until"):
         # 24:00 cannot be written as a DTSTART time of day
         for r in (spec["start"], spec["end"]):
             if r[-1] >= 86400:
@@ -241,7 +262,9 @@ def generate(cls, rng):
                           "drop:TZOFFSETTO", "extra:unknown_component",
                           "extra:unknown_property",
                           "extra:unclosed_component", "no_components",
-                          "bad_offset"])
+                          "bad_offset", "extra:dtstart_param",
+                          "extra:offset_param",
+                          "extra:wrong_component_end"])
         # alone, or next to a well-formed neighbour in the same file (the
         # malformed block first or second)
         other, other_form = gen_zone_spec(rng)
@@ -254,7 +277,7 @@ def generate(cls, rng):
     small = cls == "threads"
     nyears = rng.choice([3, 4, 6]) if small else \
         rng.choice(DP.pick([4, 8, 12, 25, 41], [12, 25, 41, 80]))
-    if form in ("rdate", "rrule_count"):
+    if form in ("rdate", "rrule_count", "rrule_until"):
         # finite components: the number of onsets around the recurrence
         # cache's batch size of ten matters
         nyears = rng.choice([3, 4, 6, 10]) if small else \
@@ -264,7 +287,7 @@ def generate(cls, rng):
         # a neighbour in the same file that differs in one aspect only
         # (e.g. the same RRULE text with another DTSTART time of day)
         other, other_form = PX.gen_sibling(rng, spec), form
-        if form in ("rrule", "rrule_count"):
+        if form in ("rrule", "rrule_count", "rrule_until"):
             for r in (other["start"], other["end"]):
                 if r[-1] >= 86400:
                     r[-1] = 82800
@@ -273,6 +296,7 @@ def generate(cls, rng):
               fold_width=rng.choice([None, None, 30, 75]),
               multi=rng.random() < 0.4, other=other, other_form=other_form,
               dormant=rng.choice([None, None, "after", "before"]),
+              decor=rng.random() < 0.3,
               source=rng.choice(["stringio", "stringio", "path", "crlf"]))
     if cls == "hist":
         pool = [gen_query(rng, nyears) for _ in range(rng.choice([3, 12, 14,
@@ -293,7 +317,7 @@ def generate(cls, rng):
     if rng.random() < 0.4:
         # cold start: every thread's first query races on components whose
         # recurrence caches are still empty and complete within one fill
-        spec, form = gen_zone_spec(rng, rng.choice(["rdate", "rrule_count"]))
+        spec, form = gen_zone_spec(rng, rng.choice(["rdate", "rrule_count", "rrule_until"]))
         sc["spec"], sc["form"] = spec, form
         sc["nyears"] = rng.choice([3, 4, 6])
         sc["multi"] = False
@@ -338,7 +362,15 @@ def build_text(sc):
         lines += vtimezone(spec, tzid, form, sc["daylight_first"],
                            sc["nyears"], sc.get("fold_width"),
                            dormant=sc.get("dormant")
-                           if tzid == "Zone/One" else None)
+                           if tzid == "Zone/One" else None,
+                           decor=bool(sc.get("decor")))
+    if sc.get("decor"):
+        # other calendar components around the zone definitions are none of
+        # the zone reader's business
+        ev = ["BEGIN:VEVENT", "UID:1@harness.invalid",
+              "DTSTART;TZID=Zone/One:20030101T090000",
+              "RRULE:FREQ=DAILY;COUNT=3", "SUMMARY:not a zone", "END:VEVENT"]
+        lines = lines[:2] + ev + lines[2:] + ev
     lines.append("END:VCALENDAR")
     sep = "\r\n" if sc.get("source") == "crlf" else "\n"
     return sep.join(lines) + sep
@@ -368,7 +400,7 @@ class ZoneUnderTest(object):
         a, b = PX.transitions_utc(spec, Y0)
         self.first_all = max(a, b)
         self.first_any = min(a, b)
-        if sc["form"] in ("rdate", "rrule_count"):
+        if sc["form"] in ("rdate", "rrule_count", "rrule_until"):
             la, lb = PX.transitions_utc(spec, Y0 + sc["nyears"])
             self.limit = min(la, lb)
         else:
